@@ -130,6 +130,16 @@ class C28Trigger(Base):
             p, n = split_id(ev['id'])
             for o in ev['outputs_after']:
                 rec['facts'].add((n, p, o))
+            # outputs whose own message was processed since the trigger
+            # (a reused proxy also still shows outputs of its earlier run)
+            if not ev.get('forced') and ev['depth'] == 0:
+                o = self.msg_to_output(n, ev['message'])
+                if o:
+                    rec['msg_facts'].add((n, p, o))
+                    for imp in {'succeeded': ('submitted', 'started'),
+                                'failed': ('submitted', 'started'),
+                                'started': ('submitted',)}.get(o, ()):
+                        rec['msg_facts'].add((n, p, imp))
 
     def on_cmd(self, ev):
         cmd, args = ev['cmd'], ev['args']
@@ -169,6 +179,7 @@ class C28Trigger(Base):
             'suspended': bool(schd.stop_mode or schd.reload_pending),
             'checked_offgroup': False, 'late_start': set(),
             'prep_flows': {}, 'fed_by_old_job': set(), 'live_flows': {},
+            'msg_facts': set(),
         }
         for tid in sorted(group):
             p, n = split_id(tid)
@@ -358,6 +369,23 @@ class C28Trigger(Base):
                 if rec['preps'][tid]:
                     continue
                 t = pool.get(tid)
+                if t is not None and not auto and t['status'] == 'waiting' \
+                        and not t['prereqs_sat'] and not self.other_flow(
+                            rec, tid) and tid not in rec['fed_by_old_job'] \
+                        and drv.ended_by_harness == 'stalled' and all(
+                            eval_in_group(ar, p, rec['msg_facts'],
+                                          rec['group'], self.gt)
+                            for ar in wfgen.arrows_at(self.gt, n, p)):
+                    # its in-group parents re-ran and reported the outputs
+                    # it needs, yet it still waits for them (stall)
+                    self.v('member-not-satisfied-by-rerun-outputs',
+                           f'{tid} still waits on '
+                           f'{[f"{x[0]}/{x[1]}:{x[2]}" for x in t["prereqs"] if not x[3]]}'
+                           f' although the members of {sorted(rec["group"])}'
+                           f' it depends on re-ran after the trigger at '
+                           f'iteration {rec["it"]} and reported those '
+                           'outputs', {'now': t, 'msg_facts': sorted(
+                               rec['msg_facts'])})
                 if t is None or auto:
                     self.v('member-did-not-run' + (
                         ':completed-by-messages-of-its-removed-job'
